@@ -30,7 +30,11 @@ RULE = ('unit: valid trees (depth 1-5, chains, single-node levels; trees with a 
         'records; end to end: generated reference + marker table + query '
         '(1-12 cells, ids sorting differently from file order, 3 encodings) x '
         'chunk size 1..n+3 x workers 1-4 x flatten x every droppable level x '
-        'absent drop level x runners-up 0-5; thorough adds every tree shape '
+        'absent drop level x runners-up 0-5; same-process histories: 4-5 '
+        'consecutive mappings in this process with the stats / marker / query '
+        'files re-written at the same paths (cells appended / re-ordered / '
+        'removed / all new, sometimes a new reference), tmp_dir set or None; '
+        'thorough adds every tree shape '
         'with <=4 levels and <=6 leaves x {plain, flatten, each drop}. '
         'non-trivial = the tree has a parent with >=2 children and the case '
         'has >=2 cells (unit/e2e) or a level is actually inferred (backfill); '
@@ -439,15 +443,22 @@ def error_class(msg):
     return name or 'unknown'
 
 
-def check_e2e(ctx, problem, cfg, prop='C01', label='random'):
+def check_e2e(ctx, problem, cfg, prop='C01', label='random', workdir=None,
+              tmp_dir=True, history=None):
     detail = {'kind': 'e2e', 'problem': problem, 'config': cfg}
+    if history is not None:
+        # same-process history: the failing step with everything before it
+        detail = {'kind': 'history', 'steps': history}
     tree = problem['tree']
     if validator_rejects(ctx, tree, 'e2e'):
         ctx.case(None)
         return True
-    r = U.run_problem(problem, cfg)
+    r = U.run_problem(problem, cfg, workdir=workdir, tmp_dir=tmp_dir)
+    if not tmp_dir:
+        ctx.count('e2e:tmp_dir=None')
     nontriv = U.has_choice(tree) and len(problem['cell_ids']) >= 2
-    ctx.case(json.dumps(detail, sort_keys=True) if nontriv else None,
+    ctx.case(json.dumps({'p': problem, 'c': cfg, 'h': len(history or [])},
+                        sort_keys=True) if nontriv else None,
              sample={'kind': 'e2e', 'hierarchy': tree['hierarchy'],
                      'n_cells': len(problem['cell_ids']), 'config': cfg,
                      'ok': r['ok']})
@@ -542,6 +553,81 @@ def run_e2e(ctx, n):
         check_e2e(ctx, problem, cfg)
 
 
+def next_query(rng, problem):
+    """the query file re-written: other order / cells appended / removed /
+    all new; the reference stays"""
+    p = copy.deepcopy(problem)
+    cells = list(zip(p['cell_ids'], p['X']))
+    n_genes = len(p['query_genes'])
+    kind = rng.choice(['append', 'append', 'reorder', 'remove', 'new', 'mix'])
+    taken = set(p['cell_ids'])
+
+    def fresh(k):
+        out = []
+        while len(out) < k:
+            c = rng.choice(['c', 'n', 'Z', '1']) + str(rng.randrange(3000))
+            if c not in taken:
+                taken.add(c)
+                row = [float(rng.randrange(40)) for _ in range(n_genes)]
+                row[rng.randrange(n_genes)] += 1.0
+                out.append((c, row))
+        return out
+    if kind in ('append', 'mix'):
+        for c in fresh(rng.randint(1, 4)):
+            cells.insert(rng.randint(0, len(cells)) if kind == 'mix'
+                         else len(cells), c)
+    if kind in ('reorder', 'mix'):
+        rng.shuffle(cells)
+    if kind == 'remove' and len(cells) > 1:
+        cells.pop(rng.randrange(len(cells)))
+        rng.shuffle(cells)
+    if kind == 'new':
+        cells = fresh(rng.randint(1, 8))
+    p['cell_ids'] = [c for c, _ in cells]
+    p['X'] = [list(x) for _, x in cells]
+    return p, kind
+
+
+def gen_history(rng, n_steps):
+    steps = []
+    problem = U.make_problem(rng, max_depth=4, n_cells=rng.randint(2, 8))
+    for i in range(n_steps):
+        if i > 0:
+            if rng.random() < 0.3:
+                # stats, markers and query all re-written
+                problem = U.make_problem(rng, max_depth=4,
+                                         n_cells=rng.randint(1, 8))
+            else:
+                problem, _ = next_query(rng, problem)
+        cfg = U.gen_config(rng, problem)
+        steps.append({'problem': problem, 'config': cfg,
+                      'tmp_dir': rng.random() < 0.4})
+    return steps
+
+
+def check_history(ctx, steps, prop='C01'):
+    """consecutive mappings IN THIS PROCESS with the stats / marker / query
+    files re-written at the SAME paths: every run must describe the file as it
+    is now (count, order, ids, ...), not an earlier one"""
+    from ctmverif import pipeline
+    ok = True
+    with pipeline.workdir('ctmverif_ll_hist_') as d:
+        for i, st in enumerate(steps):
+            ctx.count('history:step')
+            ok = check_e2e(ctx, st['problem'], st['config'], prop=prop,
+                           label='history', workdir=d,
+                           tmp_dir=st.get('tmp_dir', True),
+                           history=steps[:i + 1]) and ok
+            if not ok:
+                break
+    return ok
+
+
+def run_histories(ctx, n, n_steps):
+    for _ in range(n):
+        check_history(ctx, gen_history(ctx.rng, n_steps))
+
+
 def run_shapes(ctx, max_levels, max_leaves, budget_s):
     """every tree shape x {plain, flatten, each droppable level}"""
     rng = ctx.rng
@@ -589,6 +675,7 @@ def run(ctx):
     for _ in range(15 if quick else 80):
         check_reorder(ctx, *gen_reorder_case(ctx.rng))
     run_e2e(ctx, 110 if quick else 400)
+    run_histories(ctx, 8 if quick else 50, 4 if quick else 5)
     if not quick:
         run_shapes(ctx, 4, 6, budget_s=480)
 
@@ -605,5 +692,7 @@ def replay(ctx, data, from_corpus=False):
         check_reorder(ctx, d['obs'], d['blob'], d.get('mode', 'perm'))
     elif kind == 'e2e':
         check_e2e(ctx, d['problem'], d['config'], label='replay')
+    elif kind == 'history':
+        check_history(ctx, d['steps'])
     elif not from_corpus:
         print('nothing to replay for kind', kind)
